@@ -395,3 +395,37 @@ func BadCheckersShareOneContext() *blockChecker {
 func GoodCheckersOwnTheirContext() *blockChecker {
 	return &blockChecker{h: &hashingContext{}}
 }
+
+// ---- pooled objects ---------------------------------------------------------------------------------
+
+type scratch struct{ buf []byte }
+
+func (s *scratch) bytes() []byte { return s.buf }
+
+var scratchPool = sync.Pool{New: func() interface{} { return &scratch{} }}
+
+// BadReturnsPooledMemory hands back memory of an object it has already (deferred) put back.
+func BadReturnsPooledMemory(n int) []byte {
+	s := scratchPool.Get().(*scratch)
+	defer scratchPool.Put(s)
+	s.buf = append(s.buf[:0], make([]byte, n)...)
+	return s.bytes()
+}
+
+// BadUsesAfterPut touches the object after giving it back.
+func BadUsesAfterPut(out func([]byte)) {
+	s := scratchPool.Get().(*scratch)
+	b := s.bytes()
+	scratchPool.Put(s)
+	out(b)
+}
+
+// GoodCopiesBeforePut copies what it needs and gives the object back last.
+func GoodCopiesBeforePut(out func([]byte)) int {
+	s := scratchPool.Get().(*scratch)
+	b := s.bytes()
+	out(b)
+	n := len(b)
+	scratchPool.Put(s)
+	return n
+}
